@@ -480,6 +480,18 @@ func runC02(c *core.Ctx) {
 			}
 			ops := []kop{{"m.DeriveChild(0)", false, 0, false}, {"m.DeriveChild(1H)", false, 1<<31 + 1, false}, {"xpub.DeriveChild(0)", true, 0, false},
 				{"xpub.DeriveChild(1)", true, 1, false}, {"xpub.Public().DeriveChild(2)", true, 2, true}, {"xpub.DeriveChild(1H)", true, 1<<31 + 1, false}}
+			type refRes struct {
+				n   rs.Node
+				err error
+			}
+			refChild := make([]refRes, len(ops)) // the reference's answer depends on the operation only: computed once
+			for oi, o := range ops {
+				if o.public {
+					refChild[oi].n, refChild[oi].err = rm.Public().Child(cv.ref, o.idx)
+				} else {
+					refChild[oi].n, refChild[oi].err = rm.Child(cv.ref, o.idx)
+				}
+			}
 			var rec func(seq []int)
 			rec = func(seq []int) {
 				if len(seq) > 0 {
@@ -506,13 +518,7 @@ func runC02(c *core.Ctx) {
 								ch, cerr = xpub.DeriveChild(o.idx)
 							}
 						})
-						var rch rs.Node
-						var rerr error
-						if o.public {
-							rch, rerr = rm.Public().Child(cv.ref, o.idx)
-						} else {
-							rch, rerr = rm.Child(cv.ref, o.idx)
-						}
+						rch, rerr := refChild[oi].n, refChild[oi].err
 						bad := ""
 						switch {
 						case pn != nil:
